@@ -1,18 +1,21 @@
 /-
   Model of the REPRESENTATION layer of persim/gromov_hausdorff.py (property C17), import-free.
 
-    gromov_hausdorff(AG, AH=None, …)                    → `gromovHausdorff`   (lines 143-177)
-    make_distance_matrix_from_adjacency_matrix(AG)      → `makeDist`          (lines 196-216)
+    gromov_hausdorff(AG, AH=None, …)                    → `gromovHausdorff`
+    make_distance_matrix_from_adjacency_matrix(AG)      → `makeDist`
     cast_distance_matrix_to_optimal_int_type            → `maxEntry` + `optimalIntType`
-    determine_optimal_int_type(value)                   → `optimalIntType`    (lines 258-263)
+    determine_optimal_int_type(value)                   → `optimalIntType`
     estimate(DX, DY, mapping_sample_size_order)         → the PARAMETER `est` (modelled by C05)
 
   What the model's input is.  A graph arrives as the matrix of its entries, `Mat = List (List Nat)`
-  (row major).  Nested lists, dense `ndarray`s of any dtype, `np.matrix` and scipy sparse matrices
-  (CSR/CSC/COO/LIL/DOK) are containers of that same matrix; unpacking the container is left to the
-  correspondence harness.  The model assumes: entries are finite and non-negative (scipy warns on
-  negative weights; NaN/inf are "no edge" in a dense array but an edge in a sparse one), and a sparse
-  matrix has no explicitly stored zeros (scipy counts a stored 0 as an edge).
+  (row major).  Nested lists / tuples (`np.asarray`), dense `ndarray`s of any dtype, `np.matrix` and scipy
+  sparse matrices of every format (CSR/CSC/COO/LIL/DOK/BSR/DIA; the code converts them with `.tocsr()`
+  before calling csgraph — /repo commit f0487ca; before it COO/DOK/BSR/DIA inputs with nnz ≥ n²/4 raised
+  `ValueError`) are containers of that same matrix; unpacking the container is left to the correspondence
+  harness.  The model assumes simple unweighted graphs in the sense of the docstring: entries are finite and
+  non-negative (scipy warns on negative weights; NaN/inf/|x| ≤ 1e-8 are "no edge" in a dense array but an
+  edge in a sparse one), and a sparse matrix has no explicitly stored zeros (scipy counts a stored 0 as
+  an edge; `tocsr()` sums duplicate COO entries, which keeps non-zero-ness for non-negative entries).
 
   `shortest_path(AG, directed=False, unweighted=True)`:
     * `directed=False`  — i and j are adjacent when the entry is non-zero in EITHER direction: `adjOf`;
